@@ -33,6 +33,8 @@ TReset ==
   /\ now' = 0 /\ ups' = <<>> /\ quiet' = 0 /\ out' = [ev |-> "init"]
   /\ shas' = <<Trace[l].sha>> /\ Adv
 TWrite  == Line("write") /\ B!DbWrite /\ gen' = E.gen /\ shas' = Append(shas, E.sha) /\ Adv
+\* a write that reported failure saved nothing: neither the file nor the generation moved
+TWriteFail == Line("writefail") /\ E.moved = "f" /\ Adv /\ UNCHANGED <<bvars, shas>>
 TUBegin == Line("ubegin") /\ B!UBegin /\ out'.ev = "ubegin" /\ shas[out'.body] = E.sha /\ Adv /\ UNCHANGED shas
 TUEnd   == Line("uend") /\ B!UEnd(T(E.ok)) /\ Adv /\ UNCHANGED shas
 TS3     == Line("s3") /\ B!S3Mode(E.mode) /\ Adv /\ UNCHANGED shas
@@ -49,7 +51,7 @@ TEnd    == Line("end") /\ ~B!Urgent /\ Adv /\ UNCHANGED <<bvars, shas>>
 Silent  == (B!Check \/ B!Read \/ B!WaitOver \/ (B!UBegin /\ out'.ev = "uskip")) /\ UNCHANGED <<l, shas>>
 
 Init == B!Init /\ l = 1 /\ shas = <<"">>
-Next == TReset \/ TWrite \/ TUBegin \/ TUEnd \/ TS3 \/ TCancel \/ TExit \/ TAdv \/ TTime \/ TEnd \/ Silent
+Next == TReset \/ TWrite \/ TWriteFail \/ TUBegin \/ TUEnd \/ TS3 \/ TCancel \/ TExit \/ TAdv \/ TTime \/ TEnd \/ Silent
 
 Consistent == B!Consistent
 RateLimit == B!RateLimit
